@@ -9,6 +9,7 @@
 #include <string>
 #include <vector>
 #include "wire.h"
+#include "matchmodel.h"
 
 namespace vp {
 
@@ -24,11 +25,14 @@ struct Exp {
   uint32_t reply_serial = 0;
   std::vector<Value> body;
   bool any_body = false;       // body not predicted (e.g. error message text)
+  bool full = false;           // compare the whole frame with `whole` (forwarded client messages): type, flags, serial, all fields as a set, body
+  Msg whole;
   std::string show() const;
 };
 // "" if the frame is what exp describes
 std::string frame_vs_exp(const Msg& got, const Exp& e);
 
+Exp exp_forward(const Msg& stamped);
 Exp exp_reply(const std::string& dest, uint32_t rs, const std::vector<Value>& body);
 Exp exp_error(const std::string& dest, uint32_t rs, const std::string& name);
 Exp exp_bus_signal(const std::string& member, const std::string& dest, const std::vector<Value>& body);
@@ -45,9 +49,7 @@ struct MConn {
   bool registered = false;   // Hello done
   bool monitor = false;
   std::string unique;
-  // simplified subscription used by the name/unicast targets: NameOwnerChanged watcher
-  bool noc_all = false;                  // rule: type='signal',sender=BUS,interface=BUS_IFACE,member='NameOwnerChanged'
-  std::set<std::string> noc_arg0;        // rules with an additional arg0='<name>'
+  std::vector<MatchRule> rules;          // match rules currently held (multiset, insertion order)
 };
 
 class BusModel {
@@ -64,6 +66,16 @@ class BusModel {
   uint32_t release_name(int c, const std::string& name, uint32_t serial, Out& out, std::string* err);
   void disconnect(int c, Out& out);
   int names_held(int c) const;
+  // Match rules.
+  void add_match(int c, const MatchRule& r) { conns[c].rules.push_back(r); }
+  bool remove_match(int c, const MatchRule& r);     // removes one rule equal to r; false if none
+  // Recipients of a message by match rules (excluding `addressed`, monitors and dead connections): each at most once.
+  std::vector<int> rule_recipients(const Msg& stamped, int sender_conn /* -1 = the bus */, int addressed) const;
+  // Frame as the bus forwards it: unknown fields and CONTAINER_INSTANCE stripped, SENDER overwritten.   [property C03]
+  Msg stamp(const Msg& m, int sender_conn) const;
+  // A signal originated by the bus itself, delivered by match rules (dest == "") or unicast.
+  void bus_signal(const std::string& member, const std::string& dest, const std::vector<Value>& body, Out& out);
+  MatchCtx ctx_for(int sender_conn, int addressed) const;
   // queries
   int primary(const std::string& name) const;            // -1 if none (well-known or unique names)
   std::vector<std::string> queued_owners(const std::string& name) const;
